@@ -357,6 +357,17 @@ func genC05(g *Gen, c09 bool) {
 				Desc: map[string]interface{}{"kind": "normset", "input": descTree(flat), "outcomes": []string{od}},
 				Tags: []string{"norm", "flat"}, Nontrivial: true})
 		}
+		// the same mixture as a struct: the fields are visited in declaration order, so a dotted
+		// key can come before the literal value it extends
+		if r.P(1, 2) {
+			st := asStructOrder(r, flat)
+			g.Add(c05Norm(st, o, fmt.Sprintf("%+v", st), "flat", "struct"))
+			cs, ds, _ := newFromObs(st, o)
+			cn, dn, _ := newFromObs(t, o)
+			g.Add(Case{Coq: fmt.Sprintf("CSame %s %s %s", coqStr("dotted-struct"), cn, cs),
+				Desc: map[string]interface{}{"kind": "same-dotted", "nested": descTree(t), "flat": fmt.Sprintf("%+v", st), "a": dn, "b": ds},
+				Tags: []string{"same:dotted-struct"}, Nontrivial: true})
+		}
 		c1, d1, _ := newFromObs(t, o)
 		c2, d2, _ := newFromObs(flat, o)
 		g.Add(Case{Coq: fmt.Sprintf("CSame %s %s %s", coqStr("dotted"), c1, c2),
